@@ -36,6 +36,14 @@ PROPS = {
         "level": "exploration",
         "stages": both("model") + [miri("miri-model", scale=0.004)],
     },
+    "C14": {
+        "level": "exploration",
+        "stages": both("model") + [miri("miri-model", scale=0.004)],
+    },
+    "C18": {
+        "level": "exploration",
+        "stages": both("model") + [miri("miri-model", scale=0.004)],
+    },
     "C13": {
         "level": "exploration",
         "stages": both("model") + [miri("miri-model", scale=0.004)],
